@@ -20,12 +20,12 @@ inductive Out (α : Type) where
   | ok (a : α)
   | err
   | panic
-  deriving Inhabited
+  deriving Inhabited, DecidableEq
 
 structure M (α : Type) where
   logs : List Json
   out : Out α
-  deriving Inhabited
+  deriving Inhabited, DecidableEq
 
 namespace M
 def pure {α : Type} (a : α) : M α := ⟨[], .ok a⟩
